@@ -1,5 +1,4 @@
 ---- MODULE MC_mixed ----
 EXTENDS PickleGen, Ops
-PersidOp == [o |-> "PERSID", ty |-> "str", v |-> "str:'pid'", h |-> "s:'pid'", s |-> "pid"]
 Alpha == { O("MARK"), O("STOP"), G1, G2, O("STACK_GLOBAL"), SM1, SN1, I1, K1, K2, KNone, O("EMPTY_TUPLE"), O("TUPLE"), O("TUPLE1"), O("TUPLE2"), O("TUPLE3"), O("EMPTY_DICT"), O("EMPTY_LIST"), O("EMPTY_SET"), O("LIST"), O("DICT"), O("FROZENSET"), O("APPEND"), O("APPENDS"), O("SETITEM"), O("SETITEMS"), O("ADDITEMS"), O("REDUCE"), O("OBJ"), O("NEWOBJ"), O("NEWOBJ_EX"), O("BUILD"), O("BINPERSID"), PersidOp, O("POP"), O("POP_MARK"), O("DUP"), OA("PUT", 0), OA("PUT", 5), OA("GET", 0), OA("GET", 5), O("MEMOIZE"), OA("PROTO", 2), OA("PROTO", 4), O("FRAME") }
 ====
